@@ -19,7 +19,7 @@ import json, os, re
 from concurrent.futures import ThreadPoolExecutor
 from common import *
 
-MC_INVS = ["TypeOK", "RightPartition", "NoDuplicate", "EosComplete", "FifoPO", "MemExact", "Released", "MarkerHasBatch"]
+MC_INVS = ["TypeOK", "RightPartition", "NoDuplicate", "EosComplete", "NoCleanEndAfterFailure", "FifoPO", "MemExact", "Released", "MarkerHasBatch"]
 MC_ACTIONS = ["Pull", "Send", "Finish", "Fail", "Recv", "Drop"]
 ACT_RE = re.compile(r"^<(\w+) line \d+, col \d+ to line \d+, col \d+ of module Repartition(?: \([\d ]+\))?>: (\d+):(\d+)", re.M)
 
@@ -54,6 +54,10 @@ def run(ctx):
     ccfg = ctx.path("cases.cfg")
     open(ccfg, "w").write(f"CONSTANTS HV <- HVV MAXLEN = {2 if quick else 3} MAXN = 8 MAXSP = 3\nSPECIFICATION Spec\nINVARIANTS Sane Emit\nCHECK_DEADLOCK FALSE\n")
     f_cases = pool.submit(lambda: tlc_must_pass(ctx, mc_mod, cfg=ccfg, workers=2, tag="cases", timeout=1800))
+    # the combined "early drop, then input failure" scenarios
+    dcfg = ctx.path("droperr.cfg")
+    open(dcfg, "w").write("CONSTANTS MAXOUT = 3 NIN = 3\nSPECIFICATION Spec\nINVARIANTS Emit\nCHECK_DEADLOCK FALSE\n")
+    f_de = pool.submit(lambda: tlc_must_pass(ctx, "proto/RepartDropErr", cfg=dcfg, workers=2, tag="droperr", timeout=1800))
     # ---- 1. the protocol model ----------------------------------------------------------------------
     exh = [dict(NI=2, NO=2, NB=1, PO=False, MEM=1, live=True), dict(NI=2, NO=2, NB=1, PO=True, MEM=0, live=True),
            dict(NI=2, NO=2, NB=2, PO=True, MEM=1, live=False)]
@@ -65,8 +69,8 @@ def run(ctx):
     def mc(i_c):
         i, c = i_c
         cfg = ctx.path(f"mc{i}.cfg")
-        open(cfg, "w").write(f"CONSTANTS NI = {c['NI']} NO = {c['NO']} NB = {c['NB']} PO = {tla_bool(c['PO'])} MEM = {c['MEM']} ERRS = TRUE DROPS = TRUE\n"
-                             f"SPECIFICATION Spec\nINVARIANTS {' '.join(MC_INVS)}\n" + ("PROPERTIES Termination\n" if c["live"] else "") + "CHECK_DEADLOCK TRUE\n")
+        open(cfg, "w").write(f"CONSTANTS NI = {c['NI']} NO = {c['NO']} NB = {c['NB']} PO = {tla_bool(c['PO'])} MEM = {c['MEM']} ERRS = TRUE DROPS = TRUE FANOUT_BREAKS = FALSE\n"
+                             f"SPECIFICATION Spec\nINVARIANTS {' '.join(MC_INVS)}\n" + ("PROPERTIES Termination ErrorSurfaces\n" if c["live"] else "") + "CHECK_DEADLOCK TRUE\n")
         return c, tlc_must_pass(ctx, "proto/Repartition", cfg=cfg, workers=3 if quick else 4, coverage=True, tag=f"mc{i}", timeout=3000)
 
     f_mc = [pool.submit(mc, x) for x in enumerate(exh)]
@@ -80,19 +84,45 @@ def run(ctx):
         return tlc(ctx, "proto/RepartSpillGate", cfg=cfg, workers=2, tag=f"gate-{fixed}", timeout=1800)
 
     f_gate = [pool.submit(gate, False), pool.submit(gate, True)]
+
+    # model-side mutation (thorough): an error fan-out that stops at the first dropped output must be condemned
+    def fanout_mutant():
+        cfg = ctx.path("fanout.cfg")
+        open(cfg, "w").write("CONSTANTS NI = 2 NO = 2 NB = 1 PO = FALSE MEM = 1 ERRS = TRUE DROPS = TRUE FANOUT_BREAKS = TRUE\n"
+                             f"SPECIFICATION Spec\nINVARIANTS {' '.join(MC_INVS)}\nCHECK_DEADLOCK TRUE\n")
+        return tlc(ctx, "proto/Repartition", cfg=cfg, workers=2, tag="fanout", timeout=1800)
+
+    f_fan = None if quick else pool.submit(fanout_mutant)
     # ---- 2. partitioner cases -----------------------------------------------------------------------
     r = f_cases.result()
     cases = []
     for c in tlc_cases(r.out):
-        cases.append({"scheme": c["scheme"], "n": c["n"], "col": [kv(x) for x in c["col"]], "splits": [kv(x) for x in c["splits"]],
+        cases.append({"scheme": c["scheme"], "kc": c["kc"], "n": c["n"], "col": [kv(x) for x in c["col"]], "splits": [kv(x) for x in c["splits"]],
                       "desc": c["desc"], "nf": c["nf"], "rr_in": c["rr_in"], "rr_nin": c["rr_nin"], "rr_batches": c["rr_batches"], "expect": c["expect"]})
     if len(cases) < 500:
         raise ToolError(f"only {len(cases)} partitioner cases enumerated")
     case_states = r.distinct
     write_ndjson(ctx.path("part_cases.ndjson"), cases)
+    # drop x error scenarios: every <shape, failing input, position> group, with the scheme / preserve_order /
+    # spill variants cycled through the groups (quick) or all of them (thorough)
+    de_all = tlc_cases(f_de.result().out)
+    for k, c in enumerate(de_all):
+        c["id"] = k
+    groups = {}
+    for c in de_all:
+        groups.setdefault((c["nout"], tuple(c["drop"]), tuple(c["never"]), c["err_in"], c["err_pos"]), []).append(c)
+    de_cases = []
+    for gi, (gk, members) in enumerate(sorted(groups.items())):
+        members.sort(key=lambda c: (c["scheme"], c["po"], c["spill"]))
+        if quick:
+            de_cases += [members[(gi * 5 + j * 7 + ctx.seed) % len(members)] for j in range(3)]
+        else:
+            de_cases += members
+    de_reps = 1 if quick else 3
+    write_ndjson(ctx.path("droperr_cases.ndjson"), de_cases)
     # ---- 3. the real operator -----------------------------------------------------------------------
     nrandom = 120 if quick else 2000
-    summary, _ = run_harness(ctx, "vproto", ["c10", "--part-cases", ctx.path("part_cases.ndjson"), "--random", nrandom, "--jobs", 4, "--forced", 6 if quick else 12, "--forced-stop",
+    summary, _ = run_harness(ctx, "vproto", ["c10", "--part-cases", ctx.path("part_cases.ndjson"), "--random", nrandom, "--jobs", 4, "--droperr-cases", ctx.path("droperr_cases.ndjson"), "--droperr-reps", de_reps, "--forced", 6 if quick else 12, "--forced-stop",
                                               "--out", ctx.path("res.json"), "--traces", ctx.path("traces.ndjson")], timeout=6000)
     res = json.load(open(ctx.path("res.json")))
     for v in res["violations"]:
@@ -101,6 +131,25 @@ def run(ctx):
         thin = [k for k in ("exec_spilled_runs", "exec_input_error_runs", "exec_early_drop_runs", "exec_preserve_order_runs") if res[k] == 0]
         if thin or res["rows_delivered"] == 0:
             raise ToolError(f"vacuity: no executed run covered {thin}")
+    # vacuity guards: every path family below must have been executed on the real code in this tier
+    need = ["scheme_hash", "scheme_rr", "scheme_range", "hash_1_keys", "hash_2_keys", "hash_3_keys", "family_droperr", "family_random",
+            "range_null_split_value", "range_desc", "range_nulls_first", "range_string_key", "range_compound_key", "range_null_key_rows",
+            "preserve_order", "not_preserve_order", "preserve_order_spilled", "shared_pool_spilled", "spill_file_rotation_every_batch",
+            "unbounded_no_coalescer", "coalescer_all_rows_residual", "coalescer_batch_size_1", "coalescer_small_target",
+            "empty_input_batches", "single_input", "single_output", "drop_after_k_batches", "drop_after_first_poll", "output_never_executed",
+            "input_error", "input_error_with_dropped_and_live_outputs", "input_error_while_other_input_already_ended", "input_error_before_first_batch",
+            "input_error_with_rows_in_coalescer", "input_error_preserve_order", "input_error_with_spilled_batches",
+            "current_thread_runtime", "multi_thread_runtime"]
+    need_parts = ["hash_k1", "range_k1", "range_k2", "range_bad_k1", "range_bad_k2", "rr_k1"]
+    if not ctx.violations:
+        missing = [k for k in need if res["paths"].get(k, 0) == 0] + [k for k in need_parts if res["part_kinds"].get(k, 0) == 0]
+        if missing:
+            raise ToolError(f"vacuity: path families never executed on the real code in this tier: {missing}")
+        de_variants = {}
+        for c in de_cases:
+            de_variants[(c["scheme"], c["po"], c["spill"])] = de_variants.get((c["scheme"], c["po"], c["spill"]), 0) + 1
+        if len(de_variants) < 12 or min(de_variants.values()) < 10:
+            raise ToolError(f"vacuity: drop x error scenarios do not cover every scheme/preserve_order/spill variant: {de_variants}")
     # ---- protocol model results ---------------------------------------------------------------------
     states = transitions = 0
     mcs, taken = [], {}
@@ -114,6 +163,11 @@ def run(ctx):
     never = [a for a in MC_ACTIONS if taken.get(a, 0) == 0]
     if never:
         raise ToolError(f"vacuity: specification actions never taken: {never}")
+    if f_fan is not None:
+        rf = f_fan.result()
+        if not (set(rf.invariant_violated) & {"EosComplete", "NoCleanEndAfterFailure"}):
+            sys.stderr.write(rf.out[-3000:])
+            raise ToolError("Repartition.tla with FANOUT_BREAKS=TRUE is not condemned by EosComplete/NoCleanEndAfterFailure (specification-level)")
     g_pinned, g_fixed = [f.result() for f in f_gate]
     if not g_fixed.ok or g_fixed.deadlock or g_fixed.invariant_violated or g_fixed.temporal_violated:
         sys.stderr.write(g_fixed.out[-3000:])
@@ -128,7 +182,7 @@ def run(ctx):
     cap = 120 if quick else 1500
     if len(traces) > cap:
         traces = ctx.rng.sample(traces, cap)
-    chunks = [traces[i::3] for i in range(3)] if len(traces) >= 30 else [traces]
+    chunks = [traces[i::2] for i in range(2)] if len(traces) >= 30 else [traces]
 
     def validate(i_ch):
         i, ch = i_ch
@@ -165,6 +219,8 @@ def run(ctx):
         "exec_resource_exhausted_runs": res["exec_resource_exhausted_runs"], "exec_skipped": res["exec_skipped"], "exec_skip_notes": [n["why"] for n in res.get("skip_notes", [])],
         "forced_spill_gate_scenarios": res["forced_runs"], "forced_confirmed_hangs": res["forced_confirmed_hangs"],
         "rows_delivered": res["rows_delivered"],
+        "path_families_executed": res["paths"], "partitioner_case_kinds": res["part_kinds"],
+        "drop_x_error_scenarios_enumerated_by_tlc": len(de_all), "drop_x_error_scenarios_run": len(de_cases) * de_reps,
         "traces_recorded": recorded, "trace_states": tstates,
         "key_domain_hash_limbs": limbs,
         "spill_gate_model": {"pinned_code_deadlocks_in_model": True, "pinned_states": g_pinned.distinct, "repaired_model_states": g_fixed.distinct, "repaired_model_ok": True},
